@@ -32,6 +32,7 @@ func profile() sim.Profile {
 	pf.MaxCycles = 4
 	pf.Deep = true
 	pf.Contention = true
+	pf.Saturated = true
 	pf.PWholeGPU = 9
 	pf.PSharing = 2
 	pf.PSmallPodSlots = 0
